@@ -10,7 +10,7 @@ import itertools
 from lib import vlib
 from lib.vlib import cq_bytes, cq_list, cq_bool, cq_nat, cq_N
 
-SETUP_BUILDS = [{"name": "c14"}, {"name": "twin"}]
+SETUP_BUILDS = [{"name": "c14"}, {"name": "c14run"}, {"name": "twin"}]
 COQ_TARGETS = ["Runner/Properties_C14.v", "Runner/StopCorr.v"]
 HEADER = "From Coq Require Import List NArith Bool.\nFrom V Require Import Common.Bytes Runner.Stop Runner.StopCorr.\nImport ListNotations.\nOpen Scope N_scope.\n"
 ALPHA = [b"a", b"b", b"c", b" ", b"\xc3", b"\xa9", b"\xe2", b"\x82", b"\xac", b"\xf0", b"\x9f", b"\x98", b"\x80", b"\xff", b"\xed", b"\xa0", b"\xc0", b"\xf4", b"\x90"]
@@ -182,6 +182,442 @@ def run(ctx):
     for i in bad[:20]:
         ctx.mismatch("Runner/StopCorr.%s" % render(cases[i], obs[i]).split()[0], cases[i], obs[i],
                      ctx.coq_print(HEADER, model_term(cases[i])) if len(ctx.mismatches) < 3 else None)
+    run_stage(ctx)
+
+
+
+# ====================================================================================================================
+# (S) whole streaming runs through the REAL ollamarunner Server.processBatch (harness c14run)
+# ====================================================================================================================
+
+TXT = ["a", "b", "c", " ", "\n", "H", "é", "€", "😀", "한"]
+MB = ["é", "€", "😀", "한", "ß", "🙂"]
+RECUR_STOPS = [b"\n\nHuman:", b"aab", b"abab", b"<<e>", b"\n\n", "éé!".encode(), "€€".encode(), b"a\na\nb"]
+INVALID = [b"\xff", b"\x80", b"\xe2\x82", b"\xc0\x80", b"\xed\xa0\x80", b"\xf0\x9f", b"\xc3", b"\xf4\x90\x80\x80", b"\xbf"]
+
+
+def text(rng, n, mb=0.3):
+    return "".join(rng.choice(MB) if rng.random() < mb else rng.choice(TXT[:6]) for _ in range(n))
+
+
+def tok_bytes(b):
+    return [bytes([x]) for x in b]
+
+
+def tok_random(rng, b, maxlen=3):
+    out, i = [], 0
+    while i < len(b):
+        k = rng.randint(1, maxlen)
+        out.append(b[i:i + k])
+        i += k
+    return out
+
+
+def tok_mb(rng, t):
+    """multi-byte characters one byte per token (1+1, 1+1+1, 1+1+1+1); ASCII glued to neighbours at random"""
+    out = []
+    for ch in t:
+        e = ch.encode()
+        if len(e) > 1:
+            out.extend(tok_bytes(e))
+        elif out and rng.random() < 0.4:
+            out[-1] = out[-1] + e
+        else:
+            out.append(e)
+    return out
+
+
+def tok_chars(t):
+    return [ch.encode() for ch in t]
+
+
+def planted(rng, pre, stop, post, parts):
+    """pre + stop + post with the stop cut into `parts` tokens; the first may carry the tail of pre, the last the
+    head of post (stop strings overlapping piece boundaries)"""
+    parts = max(1, min(parts, len(stop)))
+    cuts = sorted(rng.sample(range(1, len(stop)), parts - 1)) if parts > 1 else []
+    segs = [stop[a:b] for a, b in zip([0] + cuts, cuts + [len(stop)])]
+    a = tok_random(rng, pre)
+    z = tok_random(rng, post)
+    if a and rng.random() < 0.5:
+        segs[0] = a.pop() + segs[0]
+    if z and rng.random() < 0.5:
+        segs[-1] = segs[-1] + z.pop(0)
+    return a + segs + z, len(a) + len(segs)      # pieces, number of tokens after which the stop is complete
+
+
+def rnd_stop(rng):
+    r = rng.random()
+    if r < 0.3:
+        return rng.choice(RECUR_STOPS)
+    return text(rng, rng.randint(1, 3), 0.25).encode()
+
+
+def gen_seq(rng, klass):
+    """-> dict(pieces=[bytes], eos=index or None, stops=[bytes], limit=int)"""
+    stops, limit, eos = [], 0, "end"
+    if klass == "mb-split":
+        t = text(rng, rng.randint(2, 7), 0.6)
+        pieces = tok_mb(rng, t)
+        stops = [rnd_stop(rng) for _ in range(rng.randint(0, 2))]
+    elif klass == "byte-fallback":
+        t = text(rng, rng.randint(2, 6), 0.5)
+        pieces = tok_bytes(t.encode())
+        stops = [rng.choice([rng.choice(MB).encode(), rnd_stop(rng), (rng.choice(MB) + "!").encode()]) for _ in range(rng.randint(0, 2))]
+    elif klass in ("stop-split", "stop-at-limit"):
+        stop = rnd_stop(rng) if rng.random() < 0.5 else text(rng, rng.randint(2, 4), 0.3).encode()
+        pre = text(rng, rng.randint(0, 4), 0.3).encode()
+        post = text(rng, rng.randint(0, 3), 0.3).encode()
+        pieces, j = planted(rng, pre, stop, post, rng.randint(2, 4))
+        stops = [stop] + [rnd_stop(rng) for _ in range(rng.randint(0, 2))]
+        rng.shuffle(stops)
+        if klass == "stop-at-limit":
+            limit = max(1, j + rng.choice([-1, 0, 0, 1]))
+    elif klass == "stop-recur":
+        stop = rng.choice(RECUR_STOPS)
+        k = rng.randint(1, len(stop) - 1)
+        body = text(rng, rng.randint(0, 3), 0.2).encode() + stop[:k] * rng.randint(1, 2) + (stop if rng.random() < 0.8 else stop[:-1]) + text(rng, rng.randint(0, 2), 0.2).encode()
+        pieces = tok_random(rng, body, rng.choice([1, 2, 3]))
+        stops = [stop] + ([rnd_stop(rng)] if rng.random() < 0.3 else [])
+    elif klass == "limit-pending":
+        # the limit falls inside a split character or a partially matched stop
+        if rng.random() < 0.5:
+            pre_toks = tok_random(rng, text(rng, rng.randint(0, 3), 0.0).encode())
+            chb = rng.choice(MB).encode()
+            pieces = pre_toks + tok_bytes(chb) + tok_random(rng, text(rng, 2, 0.3).encode())
+            limit = len(pre_toks) + rng.randint(1, len(chb) - 1)
+            stops = [rnd_stop(rng)] if rng.random() < 0.3 else []
+        else:
+            stop = rng.choice(RECUR_STOPS)
+            pieces, j = planted(rng, text(rng, rng.randint(0, 3), 0.2).encode(), stop, b"zz", rng.randint(2, 4))
+            limit = max(1, j - rng.randint(1, 2))
+            stops = [stop]
+    elif klass == "eos-pending":
+        if rng.random() < 0.5:
+            ch = rng.choice(MB).encode()
+            pieces = tok_random(rng, text(rng, rng.randint(0, 3), 0.2).encode()) + tok_bytes(ch)[:rng.randint(1, len(ch) - 1)]
+        else:
+            stop = rng.choice(RECUR_STOPS)
+            pieces = tok_random(rng, text(rng, rng.randint(0, 3), 0.2).encode() + stop[:rng.randint(1, len(stop) - 1)], 2)
+            stops = [stop]
+    elif klass == "prefix-stops":
+        fam = rng.choice([[b"ab", b"abc"], [b"abc", b"ab"], [b"b", b"abc"], [b"bc", b"abc", b"c"], [b"abc", b"bcd"], [b"aa", b"a"],
+                          ["é".encode(), "é!".encode()], [b"\n\nH", b"\n\nHuman:"], [b"abcd", b"bc"], [b"ab", b"ba"]])
+        body = (text(rng, rng.randint(0, 3), 0.2) + rng.choice(["abcd", "xabc", "aabc", "ababc", "é!", "\n\nHuman:", "abd", "bcd", "ba"]) + text(rng, rng.randint(0, 2), 0.2)).encode()
+        pieces = tok_random(rng, body, rng.choice([1, 2, 3, 4]))
+        stops = list(fam)
+    elif klass == "invalid":
+        parts = [text(rng, rng.randint(0, 2), 0.4).encode(), rng.choice(INVALID), text(rng, rng.randint(0, 3), 0.4).encode()]
+        if rng.random() < 0.3:
+            parts += [rng.choice(INVALID)]
+        pieces = tok_random(rng, b"".join(parts), rng.choice([1, 1, 2, 3]))
+        stops = [rnd_stop(rng) for _ in range(rng.randint(0, 2))] + ([b"ab", b"a\xffb"] if rng.random() < 0.2 else [])
+    else:  # random
+        alpha = [b"a", b"b", b"ab", b"ba", b"", b"\xc3", b"\xa9", b"\xe2\x82", b"\xac", b"c", b" ", b"\xc3\xa9"]
+        pieces = [rng.choice(alpha) for _ in range(rng.randint(0, 8))]
+        stops = [b"".join(rng.choice(alpha[:4] + alpha[9:]) for _ in range(rng.randint(1, 3))) or b"a" for _ in range(rng.randint(0, 3))]
+    # common perturbations
+    if rng.random() < 0.15 or klass == "empty-pieces":
+        for _ in range(rng.randint(1, 3)):
+            pieces.insert(rng.randint(0, len(pieces)), b"")
+    if klass not in ("stop-at-limit", "limit-pending") and rng.random() < 0.3:
+        limit = rng.randint(1, max(1, len(pieces) + 1))
+    r = rng.random()
+    if klass == "eos-pending" or r < 0.55:
+        eos = len(pieces)
+    elif r < 0.7 and pieces:
+        eos = rng.randint(0, len(pieces))
+    else:
+        eos = None
+    stops = [x for x in stops if x]
+    return {"pieces": pieces, "eos": eos, "stops": stops, "limit": limit}
+
+
+RUN_CLASSES = ["mb-split", "byte-fallback", "stop-split", "stop-recur", "stop-at-limit", "limit-pending", "eos-pending",
+               "empty-pieces", "prefix-stops", "invalid", "random"]
+
+
+def seq_json(q, prompt, keep):
+    toks = [hx(p_) for p_ in q["pieces"]]
+    if q["eos"] is not None:
+        toks = toks[:q["eos"]] + ["EOS"] + toks[q["eos"]:]
+    return {"prompt": prompt, "toks": toks, "stops": [hx(s_) for s_ in q["stops"]], "limit": q["limit"], "keep": keep}
+
+
+def run_case(rng, seqs, klass, mode=None):
+    """wrap sequences into a harness case with a random server configuration"""
+    mode = mode or ("http" if rng.random() < 0.12 else "step")
+    cache = rng.choice(["none", "none", "stub", "stub", "stub-nopartial"])
+    if cache == "none":
+        parallel, batch, ctxn = 1, 64, 256
+    else:
+        parallel = 2 if len(seqs) > 1 else rng.choice([1, 1, 2])
+        batch = rng.choice([1, 2, 3, 64])
+        # small contexts force context shifts (and, with stub-nopartial, reprocessing) in the middle of a generation.
+        # Only for sequences without stops: after a shift the stop branch's cache trimming
+        # (seq.cache.Inputs[:tokenLen]) panics when the pending pieces outnumber the cached inputs, which needs a
+        # stop spanning more tokens than about numCtx/2 - a cache matter (C07), not part of C14's quantifier.
+        if any(q["stops"] for q in seqs):
+            ctxn = max(2 * max(len(q["pieces"]) for q in seqs) + 8, rng.choice([16, 256]))
+        else:
+            ctxn = rng.choice([4, 5, 6, 8, 12, 256])
+    js = []
+    for q in seqs:
+        if mode == "http" or len(seqs) > 1:
+            # the real run loop panics when the script is exhausted and a batch aborts for every sequence: always end
+            if q["eos"] is None:
+                q["eos"] = len(q["pieces"])
+        js.append(seq_json(q, rng.randint(1, min(4, ctxn - 1)), rng.randint(0, 2)))
+    return {"op": "run", "mode": mode, "parallel": parallel, "batch": batch, "ctx": ctxn, "cache": cache, "seqs": js, "klass": klass}
+
+
+def corpus_runs():
+    """minimal cases that matter (each would expose one realistic regression of the loop)"""
+    def c(pieces, stops, limit=0, eos=True, klass="corpus"):
+        toks = [hx(x) for x in pieces] + (["EOS"] if eos else [])
+        return {"op": "run", "mode": "step", "parallel": 1, "batch": 64, "ctx": 256, "cache": "none",
+                "seqs": [{"prompt": 2, "toks": toks, "stops": [hx(x) for x in stops], "limit": limit, "keep": 0}], "klass": klass}
+    e = "€".encode()
+    g = "😀".encode()
+    return [
+        c([e[:1], e[1:2], e[2:], b"a"], []),                      # 1+1+1: hold-back must look at the whole pending text
+        c([g[:1], g[1:2], g[2:3], g[3:], b"!"], []),              # 1+1+1+1
+        c([b"x", b"\n", b"\n", b"\n\nHu", b"man", b":", b"y"], [b"\n\nHuman:"]),
+        c([b"a", b"b"], [b"ab"], limit=2),                        # stop completes exactly at the limit
+        c([b"a", b"b"], [b"ab"], limit=1),                        # limit hit while a stop prefix is pending
+        c([b"x", e[:1], e[1:2]], [], limit=3),                    # limit hit inside a character
+        c([b"x", e[:2]], []),                                     # EOS inside a character
+        c([b"x", b"a"], [b"ab"]),                                 # EOS while a stop prefix is pending
+        c([b"", b"a", b"", b"b", b""], [b"ab"]),
+        c([b"xa", b"bc", b"d"], [b"abc", b"ab"]),
+        c([b"xa", b"bc", b"d"], [b"bc", b"abc"]),
+        c([b"a", b"\xff", b"b"], [b"ab"]),                        # invalid byte dropped mid-stream (known finding)
+        c([b"a", b"b", b"c"], [], limit=2, eos=False),
+        c([b"a", b"b"], [], eos=False),
+    ]
+
+
+def gen_run_cases(ctx):
+    rng = ctx.rng
+    cases = corpus_runs()
+    import glob
+    import json
+    import os
+    for pth in sorted(glob.glob(os.path.join(vlib.VERIF, "corpus", "C14", "*.json"))):
+        try:
+            c = json.load(open(pth))
+            if c.get("op") == "run":
+                c["klass"] = "corpus"
+                cases.append(c)
+        except Exception:
+            pass
+    n = 60 if ctx.quick() else 900
+    for klass in RUN_CLASSES:
+        for _ in range(n):
+            k = 1 if rng.random() < 0.85 else rng.randint(2, 3)
+            cases.append(run_case(rng, [gen_seq(rng, klass) for _ in range(k)], klass))
+    # exhaustive small scope: every token list up to length L over a small piece alphabet (incl. EOS), stop "ab" / e-acute
+    L = 3 if ctx.quick() else 5
+    alpha = ["61", "62", "c3", "a9", "", "EOS"]
+    for n_ in range(0, L + 1):
+        for t in itertools.product(alpha, repeat=n_):
+            for stops, limit in (([b"ab"], 0), ([b"ab", "é".encode()], 2)):
+                cases.append({"op": "run", "mode": "step", "parallel": 1, "batch": 64, "ctx": 256, "cache": "stub",
+                              "seqs": [{"prompt": 1, "toks": list(t), "stops": [hx(x) for x in stops], "limit": limit, "keep": 0}], "klass": "run-exhaustive"})
+    return cases
+
+
+# ---- the property evaluated on one sequence's observation (independent of the Coq model)
+
+def earliest_stop(b, stops):
+    ks = [b.find(s_) for s_ in stops if s_ and b.find(s_) >= 0]
+    return min(ks) if ks else None
+
+
+def expected_end(pieces, eos, stops, limit):
+    """when and why generation has to end, from the property text: E = number of tokens sampled when it ends,
+    cause in stop|eos|limit|None (script ran out first)"""
+    cands = []
+    acc = b""
+    npieces = len(pieces) if eos is None else eos
+    for j in range(npieces):
+        acc += pieces[j]
+        if earliest_stop(acc, stops) is not None:
+            cands.append((j + 1, 0, "stop"))
+            break
+    if eos is not None:
+        cands.append((eos + 1, 1, "eos"))
+    if limit > 0:
+        cands.append((limit, 2, "limit"))
+    cands = [x for x in cands if x[0] <= npieces + (1 if eos is not None else 0)]
+    if not cands:
+        return None, None
+    E, _, cause = min(cands)
+    return E, cause
+
+
+def valid_prefix(b):
+    while not is_valid(b):
+        b = b[:-1]
+    return b
+
+
+def monitor_seq(c, q, o, top):
+    """returns list of (class, message)"""
+    toks = q["toks"]
+    eos = toks.index("EOS") if "EOS" in toks else None
+    pieces = [bytes.fromhex(t) for t in toks if t != "EOS"]
+    stops = [bytes.fromhex(s_) for s_ in q["stops"]]
+    limit = q["limit"]
+    outs = [bytes.fromhex(x) for x in o["outs"]]
+    cat = b"".join(outs)
+    viol = []
+    E, cause = expected_end(pieces, eos, stops, limit)
+    ntext = len(pieces) if eos is None else eos
+    G = b"".join(pieces[:min(E, ntext)]) if E is not None else b"".join(pieces[:ntext])
+    # "the generated text is valid UTF-8": valid, possibly cut inside its last character by the limit / EOS / script end
+    gvalid = is_valid_prefix_of_text(G)
+
+    def v(klass, msg):
+        if not gvalid and klass in ("not-prefix", "wrong-end", "output-contains-stop"):
+            klass = "invalid-utf8-dropped"
+        viol.append((klass, msg))
+    if not G.startswith(cat):
+        v("not-prefix", "streamed text %r is not a prefix of the generated text %r" % (cat, G))
+    k = earliest_stop(G, stops)
+    if earliest_stop(cat, stops) is not None:
+        v("output-contains-stop", "streamed text %r contains a stop sequence of %r" % (cat, stops))
+    if E is not None:
+        if not o["closed"]:
+            v("not-finished", "generation had to end after %d tokens (%s) but the stream was not closed" % (E, cause))
+        else:
+            want = G[:k] if cause == "stop" else G
+            # a character cut by the stop / limit / EOS cannot be streamed (it would split a character)
+            if cat != valid_prefix(want):
+                v("wrong-end", "generation ended by %s after %d tokens: streamed %r, the property requires %r (generated %r, stops %r)" % (cause, E, cat, valid_prefix(want), G, stops))
+            wantr = "length" if cause == "limit" else "stop"
+            if o["reason"] != wantr:
+                v("wrong-reason", "generation ended by %s but the reported reason is %r" % (cause, o["reason"]))
+            if o["npred"] != E:
+                v("wrong-count", "generation ended by %s after %d sampled tokens but %d are reported" % (cause, E, o["npred"]))
+    elif o["closed"]:
+        v("finished-early", "stream closed (reason %r) although no stop, EOS or limit was reached in %r" % (o["reason"], G))
+    if gvalid:
+        for x in outs:
+            if not is_valid(x):
+                v("piece-splits-character", "streamed piece %r is not whole UTF-8 (generated text %r is valid)" % (x, G))
+            if earliest_stop(x, stops) is not None:
+                v("piece-contains-stop", "streamed piece %r contains a stop sequence" % x)
+    return viol
+
+
+def is_valid_prefix_of_text(b):
+    """valid UTF-8 possibly cut inside its last character (an unfinished or cut-off generation)"""
+    import codecs
+    try:
+        codecs.getincrementaldecoder("utf-8")().decode(b, final=False)
+        return True
+    except UnicodeDecodeError:
+        return False
+
+
+def render_seq(q, o):
+    def bl(h_):
+        return cq_bytes(bytes.fromhex(h_))
+
+    def strs(l):
+        return cq_list([bl(x) for x in l], "str")
+    ts = cq_list(["(true, (@nil N))" if t == "EOS" else "(false, %s)" % bl(t) for t in q["toks"]], "(bool * str)")
+    rc = {"stop": 1, "length": 2}.get(o["reason"], 3) if o["closed"] else 0
+    items = ["chk_run %s %s %s %s %s" % (strs(q["stops"]), cq_nat(q["limit"]), ts, strs(o["outs"]), cq_N(rc))]
+    if o["submit"] == "ok":
+        evs = cq_list(["(%s, %s, %s, %s)" % (strs(e["emit"]), strs(e["pend"]), cq_nat(e["npred"]), cq_bool(e["done"])) for e in o["events"]], "ev")
+        items.append("chk_trace %s %s %s %s" % (strs(q["stops"]), cq_nat(q["limit"]), ts, evs))
+    return items
+
+
+def run_model_term(q):
+    def bl(h_):
+        return cq_bytes(bytes.fromhex(h_))
+    ts = cq_list(["(true, (@nil N))" if t == "EOS" else "(false, %s)" % bl(t) for t in q["toks"]], "(bool * str)")
+    st = cq_list([bl(x) for x in q["stops"]], "str")
+    return "let s := settle %s (run %s %s (map mk_tok %s)) in (out s, pending s, npred s, fin s)" % (cq_nat(q["limit"]), st, cq_nat(q["limit"]), ts)
+
+
+def shrink_run(ctx, binp, c, si, klass):
+    """smallest token list (then fewer stops) of sequence si on which the monitor still reports klass"""
+    import copy
+
+    def fails_with(toks, stops):
+        c2 = copy.deepcopy(c)
+        c2["seqs"] = [dict(c["seqs"][si], toks=list(toks), stops=list(stops))]
+        if c2["mode"] == "http" and "EOS" not in toks:
+            return False
+        obs, _ = ctx.run_jsonl(binp, [c2], timeout=60)
+        if not obs or "seqs" not in obs[0] or not obs[0]["seqs"]:
+            return False
+        return any(k_ == klass for k_, _ in monitor_seq(c2, c2["seqs"][0], obs[0]["seqs"][0], obs[0]))
+    q = c["seqs"][si]
+    toks, stops = list(q["toks"]), list(q["stops"])
+    if not fails_with(toks, stops):
+        return None
+    toks = vlib.ddmin(toks, lambda t: fails_with(t, stops), max_tests=60)
+    if len(stops) > 1:
+        stops = vlib.ddmin(stops, lambda s_: fails_with(toks, s_), max_tests=20)
+    c2 = copy.deepcopy(c)
+    c2["seqs"] = [dict(q, toks=toks, stops=stops)]
+    return c2
+
+
+def run_stage(ctx):
+    binp = ctx.go_build("c14run")
+    if not binp:
+        return
+    cases = gen_run_cases(ctx)
+    obs, err = ctx.run_jsonl(binp, cases)
+    if obs is None or len(obs) != len(cases):
+        ctx.obligation("harness c14run answered every case", False, err)
+        ctx.proof_failures.append({"obligation": "correspondence: harness c14run did not answer every case", "detail": err})
+        return
+    items, owners = [], []
+    shrunk = set()
+    for c, o in zip(cases, obs):
+        canon = {k: v for k, v in c.items() if k != "klass"}
+        bad = o.get("panic") or o.get("hang") or o.get("err") or (o.get("steps", 0) >= 1000000)
+        if bad or "seqs" not in o or len(o["seqs"]) != len(c["seqs"]):
+            ctx.note_case(canon, True, c["klass"])
+            ctx.violation({"op": "run", "class": "crash"}, "the runner loop crashed/hung/failed on a scripted generation: %s" % {k: o.get(k) for k in ("panic", "hang", "err")},
+                          {"case": c, "impl": o})
+            continue
+        nontriv = False
+        for si, (q, so) in enumerate(zip(c["seqs"], o["seqs"])):
+            if so["submit"] not in ("ok", "http") or (c["mode"] == "http" and so.get("status") != 200):
+                ctx.violation({"op": "run", "class": "submit-failed"}, "sequence could not be submitted: %s %s" % (so["submit"], so.get("body")), {"case": c, "impl": o})
+                continue
+            nontriv = nontriv or len(so["outs"]) > 0 and (len(q["stops"]) > 0 or any(len(t) > 2 and t != "EOS" for t in q["toks"]))
+            for klass, msg in monitor_seq(c, q, so, o):
+                rep = {"case": c, "sequence": si, "impl": o, "replay_cmd": "echo '<case json>' | build/bin/c14run"}
+                if klass not in shrunk and len(shrunk) < 6:
+                    shrunk.add(klass)
+                    m = shrink_run(ctx, binp, c, si, klass)
+                    if m:
+                        rep["minimal_case"] = m
+                ctx.violation({"op": "run", "class": klass}, msg, rep)
+            for it in render_seq(q, so):
+                items.append(it)
+                owners.append((c, si, o))
+        ctx.note_case(canon, nontriv, c["klass"], sample={"case": c, "impl": o})
+    badi, log = ctx.coq_eval(HEADER, items, per_file=120, name="runs")
+    if badi is None:
+        ctx.obligation("correspondence (runs): model evaluated on all cases", False, log)
+        ctx.proof_failures.append({"obligation": "correspondence evaluation (runs) failed in coqc", "detail": log})
+        return
+    ctx.disagreements_checked += len(items)
+    ctx.obligation("correspondence: model run/settle/trace = real processBatch loop on %d observations (%d scripted generations)" % (len(items), len(cases)), not badi)
+    for i in badi[:20]:
+        c, si, o = owners[i]
+        ctx.mismatch("Runner/StopCorr.%s" % items[i].split()[0], {"case": c, "sequence": si}, o["seqs"][si],
+                     ctx.coq_print(HEADER, run_model_term(c["seqs"][si])) if len(ctx.mismatches) < 3 else None)
 
 
 def twin_check(ctx):
